@@ -145,7 +145,8 @@ RMul(R, x, y) ==
            CASE R.k = "I" -> x * y
              [] R.k = "Z" -> BMul(x, y)
              [] R.k = "Q" -> QMulR(x, y)
-             [] R.k = "F" -> (x * y) % R.p
+             [] R.k = "F" -> IF R.p < 46341 THEN (x * y) % R.p
+                             ELSE BMod(BMul(BN(x), BN(y)), R.p)        \* primes up to 2*10^6: the product exceeds TLC's integers
              [] R.k = "G" -> GMul(x, y)
              [] R.k = "E" -> EMul(x, y)
              [] R.k = "P" ->
